@@ -21,6 +21,7 @@ import (
 	"io"
 	"net"
 	"net/http"
+	"os"
 	"sort"
 	"strings"
 	"sync"
@@ -71,6 +72,7 @@ var (
 	c02LBErr    [3]error
 	c02LBReqs   sync.Map // id -> *c02LBReq
 	c02LBNextID int64
+	c02LBNonce  = fmt.Sprintf("%d-%d", os.Getpid(), time.Now().UnixNano())
 	c02LBNextRt [3]int64
 	c02LBClient = &http.Client{
 		Transport:     &http.Transport{DisableKeepAlives: true},
@@ -82,6 +84,7 @@ var (
 func c02LBHandler(w http.ResponseWriter, r *http.Request) {
 	v, ok := c02LBReqs.Load(r.Header.Get("X-C02-Id"))
 	if !ok {
+		w.Header().Set("X-C02-Nonce", c02LBNonce)
 		w.WriteHeader(http.StatusTeapot)
 		return
 	}
@@ -107,39 +110,68 @@ func c02LBHandler(w http.ResponseWriter, r *http.Request) {
 	}
 }
 
+// c02LBStartOnce starts server i on a free port. The port is found by listening on
+// :0 and closing again, so another process may grab it first: Start then panics
+// (handleError) or, worse, the port answers but is somebody else's server. Both are
+// detected (recovered panic / nonce probe) and answered with another attempt.
+func c02LBStartOnce(i int) (int, error) {
+	l, err := net.Listen("tcp", "127.0.0.1:0")
+	if err != nil {
+		return 0, err
+	}
+	port := l.Addr().(*net.TCPAddr).Port
+	l.Close()
+	cf := c02LBConfs[i]
+	cfg := Config{Host: "127.0.0.1", Port: port, Timeout: cf.T, MaxConns: cf.MC, MaxBytes: cf.MB}
+	cfg.Name = fmt.Sprintf("c02lb%d", i)
+	srv, err := NewServer(cfg) // CpuThreshold 0: no shedder (it reads the machine's real CPU load)
+	if err != nil {
+		return 0, err
+	}
+	var routes []Route
+	for k := 0; k < c02LBRoutes; k++ {
+		routes = append(routes, Route{Method: http.MethodPost, Path: fmt.Sprintf("/lb/%d", k), Handler: c02LBHandler})
+	}
+	srv.AddRoutes(routes)
+	died := make(chan string, 1)
+	go func() {
+		defer func() {
+			if p := recover(); p != nil {
+				died <- fmt.Sprint(p)
+			}
+		}()
+		srv.Start()
+		died <- "Start returned"
+	}()
+	for n := 0; n < 1000; n++ {
+		select {
+		case why := <-died:
+			return 0, fmt.Errorf("server %d on port %d: %s", i, port, why)
+		default:
+		}
+		req, _ := http.NewRequest(http.MethodPost, fmt.Sprintf("http://127.0.0.1:%d/lb/%d", port, c02LBRoutes-1), nil)
+		req.Header.Set("X-C02-Id", "probe")
+		if resp, err := c02LBClient.Do(req); err == nil {
+			mine := resp.StatusCode == http.StatusTeapot && resp.Header.Get("X-C02-Nonce") == c02LBNonce
+			resp.Body.Close()
+			if mine {
+				return port, nil
+			}
+			return 0, fmt.Errorf("port %d is served by somebody else", port)
+		}
+		time.Sleep(10 * time.Millisecond)
+	}
+	return 0, fmt.Errorf("server %d did not start serving on port %d", i, port)
+}
+
 func c02LBServer(i int) (int, error) {
 	c02LBOnce[i].Do(func() {
-		l, err := net.Listen("tcp", "127.0.0.1:0")
-		if err != nil {
-			c02LBErr[i] = err
-			return
-		}
-		port := l.Addr().(*net.TCPAddr).Port
-		l.Close()
-		cf := c02LBConfs[i]
-		cfg := Config{Host: "127.0.0.1", Port: port, Timeout: cf.T, MaxConns: cf.MC, MaxBytes: cf.MB}
-		cfg.Name = fmt.Sprintf("c02lb%d", i)
-		srv, err := NewServer(cfg) // CpuThreshold 0: no shedder (it reads the machine's real CPU load)
-		if err != nil {
-			c02LBErr[i] = err
-			return
-		}
-		var routes []Route
-		for k := 0; k < c02LBRoutes; k++ {
-			routes = append(routes, Route{Method: http.MethodPost, Path: fmt.Sprintf("/lb/%d", k), Handler: c02LBHandler})
-		}
-		srv.AddRoutes(routes)
-		go srv.Start()
-		for n := 0; n < 500; n++ {
-			c, err := net.Dial("tcp", fmt.Sprintf("127.0.0.1:%d", port))
-			if err == nil {
-				c.Close()
-				c02LBPort[i] = port
+		for attempt := 0; attempt < 5; attempt++ {
+			c02LBPort[i], c02LBErr[i] = c02LBStartOnce(i)
+			if c02LBErr[i] == nil {
 				return
 			}
-			time.Sleep(10 * time.Millisecond)
 		}
-		c02LBErr[i] = fmt.Errorf("server %d did not start listening on port %d", i, port)
 	})
 	return c02LBPort[i], c02LBErr[i]
 }
@@ -281,7 +313,7 @@ func c02LBRun(c c02LBCase) (v kit.Verdict) {
 		return v
 	}
 	route := atomic.AddInt64(&c02LBNextRt[c.S], 1) - 1
-	if route >= c02LBRoutes {
+	if route >= c02LBRoutes-1 { // the last route is the start-up probe's
 		v.Excluded = true // never reuse a route: its breaker window and latch belong to an earlier case
 		return v
 	}
@@ -476,4 +508,10 @@ func c02LBGen(rt *rapid.T) c02LBCase {
 func TestVerif_C02_rest_loopback(t *testing.T) {
 	kit.Run(t, "C02", "rest-loopback", kit.Opts{Quick: 24, Thorough: 1600}, c02LBGen,
 		func(c c02LBCase) kit.Verdict { return c02LBRun(c) })
+	for i, err := range c02LBErr {
+		if err != nil {
+			// no failure fragment is written, so the driver reports INCONCLUSIVE (exit 2), not a violation
+			t.Errorf("loopback server %d could not be started, its cases were excluded: %v", i, err)
+		}
+	}
 }
